@@ -303,8 +303,15 @@ def render(n, depth=0):
             return "std::string::String::new()"
         if fn.endswith("Default::default") and not n["args"] and strip_generics(n.get("ty") or "") == "std::vec::Vec":
             return "std::vec::Vec::new()"
+        if fn in ("std::convert::From::from", "std::string::String::from") and len(n["args"]) == 1 and strip_generics(n.get("ty") or "") == "std::string::String" \
+                and (peel(n["args"][0]).get("ty") or "").replace("&", "").strip() == "str":
+            return "%s.to_string()" % R(n["args"][0])
         return "%s(%s)" % (fn, ", ".join(R(a) for a in n["args"]))
     if k == "mcall":
+        # an owned copy of a str is an owned copy of a str: to_owned / to_string / into (String) / String::from
+        if n["name"] in ("to_owned", "into", "to_string") and not n["args"] and strip_generics(n.get("ty") or "") == "std::string::String" \
+                and (peel(n["recv"]).get("aty") or peel(n["recv"]).get("ty") or "").replace("&", "").replace("mut ", "").strip() in ("str", "std::string::String"):
+            return "%s.to_string()" % R(n["recv"])
         return "%s.%s(%s)" % (R(n["recv"]), n["name"], ", ".join(R(a) for a in n["args"]))
     if k == "binary":
         return "(%s %s %s)" % (R(n["l"]), n["op"], R(n["r"]))
